@@ -185,7 +185,7 @@ func c09(c *Ctx) {
 		if class == "tall" {
 			// all (mode, cardinality) combinations come round: different strides
 			k := model.EdgeCards[(i/tallEvery+i/tallEvery/4)%len(model.EdgeCards)]
-			model.ForceCardinality(a, rng, a.Docs[0].Fields[0].Name, "edge", k)
+			model.ForceCardinality(a, rng, firstFieldName(a), "edge", k)
 			extra = fmt.Sprintf("term edge in %d docs", k)
 		}
 		b := model.Gen(rng, []string{"small", "mid", "one", "empty"}[rng.Intn(4)], model.GenOpts{Syn: rng.Intn(3) == 0, Vec: VecBuild && rng.Intn(2) == 0, IDPrefix: "b", NoBig: true, VecSalt: 1 + i%997})
@@ -353,7 +353,7 @@ func c09gen(c *Ctx) {
 		}
 		a := genOne(s.class, "a")
 		if s.edge > 0 {
-			model.ForceCardinality(a, rng, a.Docs[0].Fields[0].Name, "edge", s.edge)
+			model.ForceCardinality(a, rng, firstFieldName(a), "edge", s.edge)
 		}
 		e.Batches = append(e.Batches, a)
 		zx.SetChunkMode(s.mode)
